@@ -24,11 +24,11 @@ def one(args):
         env = dict(os.environ, PYTHONPATH=f"{REPO_SRC}:{VERIF}")
         env.pop("XPM_VERIF", None)
         opened = lambda: [(gates / f"gate.x{i}").touch() for i in (1, 2, 3)]  # noqa: E731
-        if k == 0:
+        if k <= 0:
             opened()
         p = subprocess.Popen(["/venv/bin/python", "-W", "ignore", str(PROG), str(wd), str(gates), str(log), str(k), str(cf)], env=env,
                              stdout=subprocess.PIPE, stderr=subprocess.DEVNULL, text=True, cwd="/")
-        if k:
+        if k > 0:
             # the jobs wait for their gate: the fault always comes first (or the launch path is over and nothing happens)
             t0 = time.time()
             while p.poll() is None and time.time() - t0 < 25:
@@ -49,14 +49,43 @@ def one(args):
             res["count"] = first["count"] if first else None
             res["states"] = first["states"] if first else None
         else:
+            stopped = []
+            # which orphan jobs can be adopted: their pid file was written before the scheduler died and their process lives
+            adoptable = []
+            for f in wd.glob("jobs/*/*/*.pid"):
+                try:
+                    pid = json.loads(f.read_text())["pid"]
+                    if os.path.exists(f"/proc/{pid}"):
+                        pj = json.loads((f.parent / "params.json").read_text())
+                        adoptable.append(f"x{pj['objects'][-1]['fields']['x']}")
+                except Exception:
+                    pass
+            res["adoptable"] = sorted(adoptable)
+            if late_gates == "stopped":
+                # the orphan jobs are suspended (SIGSTOP: a debugger, a batch system holding them) when the experiment starts again
+                import signal as _signal
+
+                for l in (log.read_text().splitlines() if log.exists() else []):
+                    e = json.loads(l)
+                    if e["e"] == "begin":
+                        try:
+                            os.kill(e["pid"], _signal.SIGSTOP)
+                            stopped.append(e["pid"])
+                        except ProcessLookupError:
+                            pass
             if not late_gates:
                 opened()
                 time.sleep(0.3)
             q = subprocess.Popen(["/venv/bin/python", "-W", "ignore", str(PROG), str(wd), str(gates), str(log), "0", str(cf)], env=env,
                                  stdout=subprocess.PIPE, stderr=subprocess.DEVNULL, text=True, cwd="/")
             if late_gates:
-                time.sleep(1.5)      # the restarted scheduler meets running jobs
+                time.sleep(4.0 if late_gates == "stopped" else 1.5)      # the restarted scheduler meets running (or suspended) jobs
                 opened()
+                for pid in stopped:
+                    try:
+                        os.kill(pid, _signal.SIGCONT)
+                    except ProcessLookupError:
+                        pass
             try:
                 q.communicate(timeout=400)
             except subprocess.TimeoutExpired:
@@ -67,6 +96,24 @@ def one(args):
             res["rc2"] = q.returncode
         body = [json.loads(l) for l in log.read_text().splitlines() if l.strip()] if log.exists() else []
         res["bodies"] = {f"x{i}": [sum(1 for e in body if e["p"] == f"x{i}" and e["e"] == w) for w in ("begin", "end")] for i in (1, 2, 3)}
+        # what the jobs wrote on their standard output is still there (a job launched again has its output truncated)
+        outs = {}
+        for f in wd.glob("jobs/*/*/*.out"):
+            t = f.read_text()
+            for i in (1, 2, 3):
+                if f"result of x{i}:" in t:
+                    outs[f"x{i}"] = True
+        res["outputs"] = sorted(outs)
+        # a job script that was launched while its success marker already existed says so on its standard error
+        again = []
+        for f in wd.glob("jobs/*/*/*.err"):
+            if "Job already completed" in f.read_text():
+                try:
+                    pj = json.loads((f.parent / "params.json").read_text())
+                    again.append(f"x{pj['objects'][-1]['fields']['x']}")
+                except Exception:
+                    pass
+        res["launched_again"] = sorted(again)
         # b starts only after a has ended
         order = [(e["e"], e["p"]) for e in body]
         if ("begin", "x2") in order and (("end", "x1") not in order or order.index(("begin", "x2")) < order.index(("end", "x1"))):
@@ -87,7 +134,7 @@ if __name__ == "__main__":
     import sys
 
     (VERIF / ".work").mkdir(exist_ok=True)
-    r0 = one((0, False))
+    r0 = one((-1, False))
     print("calibration", r0)
     n = r0["count"]
     step = int(sys.argv[1]) if len(sys.argv) > 1 else 25
